@@ -775,13 +775,14 @@ func main() {
 			}
 			if env.Tier == "thorough" {
 				return withTimeout(40*time.Minute, []fw.TLCJob{
-					job("handshake 2x2 depth 9, patched tree", "Session_c03.cfg", "9", 0),
+					job("handshake 2x2 depth 8, patched tree", "Session_c03.cfg", "8", 0),
 					{Name: "handshake 2x2 depth 8, unpatched tree", Module: "Session", Cfg: "Session_c03.cfg",
 						Consts: map[string]string{"FIXES": "{}", "LEVEL": "8", "EMIT": `"no"`}},
 					job("handshake 3x3 depth 6, patched tree", "Session_c03t.cfg", "6", 0),
 					job("addresses (lists, restart) depth 8", "Session_c03addr.cfg", "8", 0),
 					job("stored secrets (undecryptable, reset) depth 9", "Session_c03key.cfg", "9", 0),
 					job("protector life-cycle (ban kinds, clean-up tick) depth 8", "Session_c03ban.cfg", "8", 0),
+					job("credential lifetime (expiry, binding, deletion) depth 10", "Session_c03cred.cfg", "10", 0),
 					job("all environment actions depth 6", "Session_c03env.cfg", "6", 0),
 				})
 			}
@@ -802,6 +803,7 @@ func main() {
 					gen("gen:addr", "Session_c03addr.cfg", "5"),
 					gen("gen:key", "Session_c03key.cfg", "6"),
 					gen("gen:ban", "Session_c03ban.cfg", "5"),
+					gen("gen:cred", "Session_c03cred.cfg", "7"),
 					gen("gen:transitions 2x2", "Session_c03.cfg", "6"),
 					gen("gen:transitions 3x3", "Session_c03t.cfg", "4"),
 					{Name: "gen:simulate env", Module: "Session", Cfg: "Session_c03env.cfg", Workers: 4, Simulate: "num=4000", Depth: 15, Seed: env.Seed,
@@ -812,6 +814,7 @@ func main() {
 				gen("gen:addr", "Session_c03addr.cfg", "4"),
 				gen("gen:key", "Session_c03key.cfg", "5"),
 				gen("gen:ban", "Session_c03ban.cfg", "4"),
+				gen("gen:cred", "Session_c03cred.cfg", "5"), // small: driven completely (also model-checked to that depth by the same run)
 				gen("gen:transitions 2x2", "Session_c03.cfg", "5"),
 				{Name: "gen:simulate env", Module: "Session", Cfg: "Session_c03env.cfg", Workers: 4, Simulate: "num=600", Depth: 11, Seed: env.Seed,
 					Consts: map[string]string{"FIXES": fixes, "LEVEL": "10", "EMIT": `"last"`}},
@@ -822,7 +825,7 @@ func main() {
 			if env.Tier == "thorough" {
 				return map[string]int{"gen:ban": 30000, "gen:transitions 2x2": 30000, "gen:transitions 3x3": 12000, "gen:simulate env": 30000}[src]
 			}
-			return map[string]int{"gen:addr": 3500, "gen:key": 2500, "gen:ban": 3500, "gen:transitions 2x2": 3000, "gen:simulate env": 1500}[src]
+			return map[string]int{"gen:addr": 3500, "gen:key": 2500, "gen:ban": 3500, "gen:transitions 2x2": 3500, "gen:simulate env": 1500}[src]
 		},
 		// thorough: every behaviour that re-creates the address manager is driven over both value shapes of the store
 		Expand: func(env *fw.Env, src string, d json.RawMessage) []json.RawMessage {
